@@ -927,9 +927,14 @@ def _prim_atom(name, label, t, env, W):
         return OPAQUE
     if label.startswith("str::starts_with::<char>") and len(t[2]) == 2:
         # `s.starts_with(c)` for an ASCII char: the first byte of the text equals it
-        a, c_ = ev(t[2][0], env, W), ev(t[2][1], env, W)
-        if isinstance(a, tuple) and a and a[0] == "str" and isinstance(c_, PI) and c_.v < 128 and all(isinstance(d, PI) for d in a[1]):
-            return len(a[1]) > 0 and a[1][0].v == c_.v
+        a = ev(t[2][0], env, W)
+        ct = t[2][1]
+        cv = ct[2] if (isinstance(ct, tuple) and len(ct) > 2 and ct[0] == "K" and ct[1] == "char" and isinstance(ct[2], int)) else None
+        if cv is None:
+            c_ = ev(ct, env, W)
+            cv = c_.v if isinstance(c_, PI) else None
+        if isinstance(a, tuple) and a and a[0] == "str" and cv is not None and cv < 128 and all(isinstance(d, PI) for d in a[1]):
+            return len(a[1]) > 0 and a[1][0].v == cv
         return OPAQUE
     if label == "str::as_bytes" and len(t[2]) == 1:
         a = ev(t[2][0], env, W)
